@@ -203,6 +203,9 @@ func c13GenLine(s *verifh.Session, B int, allowLong bool) string {
 			n = B - 3
 		}
 	}
+	if !allowLong && n > B-8 {
+		n = B - 8 // blanks (<= 4) + content + CRLF stay below B: a skipSpace case never has a line that fills the buffer
+	}
 	if n < 0 {
 		n = 0
 	}
@@ -522,8 +525,14 @@ func TestVerif_C13_head(t *testing.T) {
 		}
 		var hd strings.Builder
 		long, fold := false, false
+		// a head has either folded lines or lines that reach the buffer size, never both: each
+		// case depends on one finding / one fix only
+		foldCase := r.Intn(3) == 0
+		if foldCase && B == 16 {
+			B = 64 // with 16 bytes even the status line fills the buffer
+		}
 		status := "HTTP/1.1 200 OK"
-		if r.Intn(6) == 0 {
+		if !foldCase && r.Intn(6) == 0 {
 			status = "HTTP/1.1 200 " + verifh.RandBytes(r, B+r.Intn(B), "abc ")
 		}
 		hd.WriteString(status + eol())
@@ -544,6 +553,9 @@ func TestVerif_C13_head(t *testing.T) {
 			default:
 				vlen = r.Intn(20)
 			}
+			if foldCase && vlen > B-26 {
+				vlen = r.Intn(4) // name (<= 18) + ": " + value + CRLF stays below B
+			}
 			if vlen < 0 {
 				vlen = 0
 			}
@@ -552,7 +564,7 @@ func TestVerif_C13_head(t *testing.T) {
 				val = val[:vlen/2] + "\r" + val[vlen/2:]
 			}
 			hd.WriteString(name + ":" + verifh.Pick(r, []string{" ", "", "  "}) + val + eol())
-			if r.Intn(7) == 0 { // obs-fold
+			if foldCase && r.Intn(3) == 0 { // obs-fold
 				fold = true
 				hd.WriteString(verifh.Pick(r, []string{" ", "\t", "   ", " \t"}) + verifh.RandBytes(r, r.Intn(12), "abc d") + eol())
 			}
@@ -567,7 +579,9 @@ func TestVerif_C13_head(t *testing.T) {
 		default:
 			hd.WriteString("\r\n")
 		}
-		body := verifh.RandBytes(r, r.Intn(30), "BODYbody\r\n ")
+		// no blanks in the bytes after the head: when the blank line is missing the parser reads
+		// on into them, and a line starting with a blank would be an (unflagged) folded line
+		body := verifh.RandBytes(r, r.Intn(30), "BODYbody\r\n")
 		full := hd.String() + body
 		chunks, errs := c13Chunk(s, B, full)
 		p0 := c13ReadHead(B, 0, chunks, errs)
